@@ -16,7 +16,7 @@ META = dict(
     text="For every element in each of the three tables the four function kinds are evaluated on radius and frequency grids; positivity and "
          "monotonicity are checked pointwise, the projected potential against a z-quadrature of the 3-D potential, the projected scattering factor "
          "against a Hankel quadrature of the projected potential, and the ratio of the two scattering-factor kinds against one global constant. "
-         "A breadth-first search over request histories (which function kinds were asked of the same object before, depth 3 quick / 4 thorough, "
+         "Every 6th element (thorough: every element up to Z = 98) is re-fitted through the public fit() of the Lobato and Kirkland forms to the scattering factor of the other table and the fitted element must satisfy the same integral identities. A breadth-first search over request histories (which function kinds were asked of the same object before, depth 3 quick / 4 thorough, "
          "x 5 ways of holding the parameter table) requires every answer to equal a fresh object's and the table to stay unchanged.",
     note="Bound: r in [0.02, 4] A, k in [0, 6] 1/A, neutral atoms. Quadrature: composite Gauss-Legendre, tolerance 3e-4 relative (observed <= 3e-5). "
          "Elements are enumerated from the tables themselves, so an added element is picked up.",
@@ -33,6 +33,11 @@ def check(ctx):
         for sym in p.parameters:
             cases.append({"table": t, "symbol": sym, "nr": 8 if ctx.quick else 24, "nk": 6 if ctx.quick else 16})
     ctx.run(cases, "run_case", rule="one case per (table, element); non-trivial = all", batch=4)
+    # re-fitted elements (public fit(): Lobato form fitted to Kirkland scattering factors and the reverse)
+    from ase.data import chemical_symbols
+    fsyms = [chemical_symbols[z] for z in (range(1, 99, 6) if ctx.quick else range(1, 99))]
+    ctx.run([{"table": t, "symbol": s_} for t in ("lobato", "kirkland") for s_ in fsyms], "run_fit", space="fitted-elements", batch=2,
+            rule="(form, element): the form is fitted to the other table scattering factor on k in [0, 6]; the fitted element's four function kinds must be finite and mutually consistent")
     # histories: a parametrization object is asked for several function kinds one after another; every answer must be the one a
     # fresh default object gives, whatever was requested before and however the parameter table is held (lists / ndarrays / json)
     depth = 3 if ctx.quick else 4
@@ -41,6 +46,59 @@ def check(ctx):
               for t in TABLES for s_ in syms for src in SOURCES for k in KINDS]
     ctx.run(hcases, "run_history", space="request-histories", batch=2,
             rule="BFS over all request sequences (4 function kinds + line_profiles) up to the depth, per (table, symbol, table source, first request)")
+
+
+def run_fit(c):
+    """An element re-fitted through the public fit() (Lobato <-> Kirkland scattering factors, the route GPAWParametrization uses) is an
+    element the parametrization supports: its four function kinds must be finite and describe ONE atom."""
+    from ase.data import atomic_numbers
+    from abtem.parametrizations import KirklandParametrization, LobatoParametrization
+    from scipy.special import j0
+
+    viol, worst = [], 0.0
+
+    def bad(key, msg):
+        if not any(v["key"] == key for v in viol):
+            viol.append({"key": key, "msg": "%s (%s)" % (msg, c)})
+
+    sym = c["symbol"]
+    cls, other = (LobatoParametrization, KirklandParametrization) if c["table"] == "lobato" else (KirklandParametrization, LobatoParametrization)
+    kfit = np.linspace(0.0, 6.0, 200)
+    target = np.asarray(other().scattering_factor(sym)(kfit ** 2), float)
+    p = cls()
+    try:
+        p.fit(atomic_numbers[sym], kfit, target)
+    except Exception as e:  # noqa: BLE001
+        return {"viol": [], "obs": "fit-raises:" + type(e).__name__, "nt": False}
+    V, Vp, f, fp = p.potential(sym), p.projected_potential(sym), p.scattering_factor(sym), p.projected_scattering_factor(sym)
+    r = np.geomspace(0.05, 3.0, 8)
+    k = np.linspace(0.0, 5.0, 6)
+    vals = {"potential": np.asarray(V(r), float), "projected_potential": np.asarray(Vp(r), float), "scattering_factor": np.asarray(f(k ** 2), float),
+            "projected_scattering_factor": np.asarray(fp(k ** 2), float)}
+    for name, v in vals.items():
+        if not np.all(np.isfinite(v)):
+            bad("fit/not-finite/" + name, "after fit(): %s of %s is not finite: %r" % (name, sym, v[:4].tolist()))
+    if viol:
+        return {"viol": viol, "obs": viol[0]["key"], "tr": 5, "ref": 1, "err": 0.0}
+    fit_err = float(np.abs(np.asarray(f(kfit ** 2), float) - target).max() / target.max())
+    z, wz = panels([0.0, 0.05, 0.5, 3.0, 10.0, 40.0], 120)
+    num = np.array([2.0 * np.sum(wz * np.asarray(V(np.sqrt(ri ** 2 + z ** 2)), float)) for ri in r])
+    e = float(np.abs(vals["projected_potential"] - num).max() / np.abs(num).max())
+    worst = max(worst, e / 3e-4)
+    if not e <= 3e-4:
+        bad("fit/projected-potential/vs-quadrature", "after fit(): projected_potential of %s differs from the z-quadrature of its potential by %.3g of the maximum" % (sym, e))
+    rq, wq = panels([0.0, 0.02, 0.2, 1.0, 3.0, 8.0, 30.0], 300)
+    vp = np.asarray(Vp(rq), float)
+    hank = np.array([2 * np.pi * np.sum(wq * vp * j0(2 * np.pi * ki * rq) * rq) for ki in k])
+    e = float(np.abs(vals["projected_scattering_factor"] - hank).max() / np.abs(hank).max())
+    worst = max(worst, e / 3e-4)
+    if not e <= 3e-4:
+        bad("fit/projected-scattering-factor/vs-hankel", "after fit(): projected_scattering_factor of %s differs from the Hankel transform of its projected potential by %.3g of the maximum" % (sym, e))
+    e = float(np.abs(vals["scattering_factor"] - 0.020886643 * vals["projected_scattering_factor"]).max() / np.abs(vals["scattering_factor"]).max())
+    worst = max(worst, e / 5e-4)
+    if not e <= 5e-4:
+        bad("fit/scattering-factor-ratio", "after fit(): scattering_factor and projected_scattering_factor of %s are not proportional by the common constant (%.3g)" % (sym, e))
+    return {"viol": viol, "obs": "fit residual %.0e" % fit_err, "tr": 5, "ref": 3, "err": worst}
 
 
 def gl(a, b, n):
